@@ -871,7 +871,13 @@ pub fn generate(rng: &mut crate::Rng, for_cc: bool) -> Scenario {
         bh,
         sack: 0,
         forget: 0,
-        cfg: Vec::new(),
+        // one scenario in three: a run-time mode round trip (enhanced -> classic -> enhanced) somewhere in the run
+        cfg: if rng.chance(1, 3) {
+            let a = rng.range(12, 35) as usize;
+            vec![(a, 0, 1), (a + rng.range(1, 6) as usize, 0, 0)]
+        } else {
+            Vec::new()
+        },
         quiet: (0, 0),
         ticks: rng.range(40, 60) as usize,
     }
@@ -957,6 +963,13 @@ pub fn monitors_e2e(trace: &Trace, sc: &Scenario, mon: &mut crate::Mon) {
     let last_tick_at = trace.ticks.last().map(|t| t.at).unwrap_or(0);
     let mut lost: Vec<u32> = Vec::new();
     let mut judged = 0usize;
+    let mut worst_hold: (u64, u32) = (0, 0);
+    let mut first_arrival_of: BTreeMap<u32, u64> = BTreeMap::new();
+    for e in &trace.rx {
+        if let RxKind::Data { seq, .. } = &e.kind {
+            first_arrival_of.entry(*seq).or_insert(e.at);
+        }
+    }
     if let Some(fa) = first_arrival {
         for (at, seq) in &trace.src {
             if *at <= fa + 50 || *at + 1500 > last_tick_at {
@@ -971,6 +984,12 @@ pub fn monitors_e2e(trace: &Trace, sc: &Scenario, mon: &mut crate::Mon) {
             judged += 1;
             if !seen_on.contains_key(seq) {
                 lost.push(*seq);
+            } else if let Some(arr) = first_arrival_of.get(seq) {
+                // hold time: on the wire after at most one batch or one 15 ms flush tick
+                let held = arr.saturating_sub(*at);
+                if held > worst_hold.0 {
+                    worst_hold = (held, *seq);
+                }
             }
         }
     }
@@ -980,6 +999,10 @@ pub fn monitors_e2e(trace: &Trace, sc: &Scenario, mon: &mut crate::Mon) {
     }
     if !lost.is_empty() {
         mon.count("e2e-scenario-with-lost-datagrams");
+    }
+    mon.count(&format!("e2e-worst-hold-{}", match worst_hold.0 { 0..=15 => "<=15ms", 16..=30 => "<=30ms", 31..=100 => "<=100ms", _ => ">100ms" }));
+    if worst_hold.0 > 100 {
+        mon.fail("C01", "e2e-held-too-long", format!("real event loop [{what}]: datagram {} was sent by the source while an uplink was connected and live and went on the wire only {} ms later; an accepted datagram is on the wire after at most one batch or one 15 ms flush tick", worst_hold.1, worst_hold.0));
     }
     if lost.len() > 32 * teardowns {
         let what2 = format!("real event loop [{what}]: {} of {judged} datagrams sent by the source while an uplink was connected and live (by the loop's own snapshots before and after) never went on any uplink's wire; {teardowns} tear-down(s) can account for at most {} (first missing: {:?})", lost.len(), 32 * teardowns, &lost[..lost.len().min(12)]);
@@ -1402,8 +1425,20 @@ pub fn generate_e2e(rng: &mut crate::Rng) -> Scenario {
         },
         ticks,
     };
-    // one scenario in six: switch to classic mode at run time, then the source pauses for a while
+    // one scenario in eight: an uplink is removed by a reload and the source falls silent in the very tick that
+    // applies it (what is queued on the survivors at that moment must still be flushed within a tick)
     let mut sc = sc;
+    if rng.chance(1, 8) && sc.ips.len() >= 3 {
+        let at = rng.range(8, 25) as usize;
+        let mut fewer = sc.ips.clone();
+        fewer.pop();
+        sc.reloads = vec![(Trigger::AtTick(at), fewer)];
+        sc.quiet = (at + 1, at + 1 + rng.range(2, 6) as usize);
+        sc.pps = *rng.pick(&[200u32, 400, 400]);
+        sc.bh.retain(|(_, from, to)| *to < at || *from > at + 8);
+        sc.forget = 0;
+    }
+    // one scenario in six: switch to classic mode at run time, then the source pauses for a while
     if rng.chance(1, 6) {
         let at = rng.range(8, 20) as usize;
         sc.cfg.retain(|(_, k, _)| *k != 0);
